@@ -52,6 +52,21 @@ CanonicalStr(bs) ==
   /\ Lt(YRaw(bs), P25519)
   /\ ~(StrSign(bs) = 1 /\ (StrY(bs) = FOne \/ StrY(bs) = FNeg(FOne)))
 
+\* ---- inversion with UNTRUSTED certificates: cs is a sequence of field elements that the recorder claims are
+\* inverses the specification will need.  A certificate is used only if it multiplies to one (the inverse is
+\* unique), otherwise the addition chain runs: results never depend on the certificates, only the cost does.
+InvP(a, cs) ==
+  IF a = FZero THEN FZero
+  ELSE IF a = FOne THEN FOne
+  ELSE LET hit == SelectSeq(cs, LAMBDA c : FMul(a, c) = FOne)
+       IN IF hit # <<>> THEN hit[1] ELSE FInv(a)
+Certs(e) == IF "invs" \in DOMAIN e THEN [i \in 1..Len(e.invs) |-> FFromBytes(e.invs[i])] ELSE <<>>
+EncodePointP(PP, cs) ==
+  LET zi == InvP(PP[3], cs)
+      x == FMul(PP[1], zi)
+      y == FMul(PP[2], zi)
+  IN MkStr(y, IF FIsNeg(x) THEN 1 ELSE 0)
+
 \* base point: y = 4/5, x non-negative
 BasePt == TLCEval(Decompress(FMul(FInt(4), FInv(FInt(5))), 0)[2])
 ScalarMulBytes(sbytes, PP) == ExtMulBits(BytesBits(sbytes), PP)
